@@ -109,18 +109,15 @@ theorem sendOK_exec (v : Variant) (s : St) (t : Nat) (i : Instr) (rest : List In
       exact h1
     · exact hall u
   case idleGo c =>
-    simp only [exec, setProg_prog]
+    simp only [exec]
     split
-    · apply sendOK_append
-      · first
-          | exact hall _
-          | (split
-             · exact h1
-             · exact hall _)
+    · exact hall u
+    · simp only [setProg_prog]
+      split
       · rfl
-    · split
-      · exact h1
-      · exact hall u
+      · split
+        · exact h1
+        · exact hall u
   case srv a =>
     simp only [exec]
     split
@@ -148,7 +145,7 @@ theorem sendOK_exec (v : Variant) (s : St) (t : Nat) (i : Instr) (rest : List In
     simp only [exec, setProg_prog]
     split
     · exact h1
-    · rw [foldl_setCont2_prog]; exact hall u
+    · rw [updCmd_prog, foldl_setCont2_prog]; exact hall u
   case cancelOrphans ks =>
     simp only [exec, setProg_prog]
     split
@@ -209,11 +206,11 @@ theorem exec_riView (v : Variant) (hv : v.initFirst = true) (s : St) (t : Nat) (
     ∃ c, riView (exec v s t i rest) = fun d => if d = c then (true, true) else riView s d := by
   cases i
   case register c =>
-    by_cases hr : (s.cmd c).registered = true
-    · left; simp [exec, hr]
+    by_cases hg : (!s.holds t || (s.cmd c).registered) = true
+    · left; simp only [exec, hg, if_true]
     · right
       refine ⟨c, ?_⟩
-      simp only [exec, hr, hv]
+      simp only [exec, hg, hv]
       unfold riView
       simp only [Bool.false_eq_true, if_false, setProg_cmd, updCmd_cmd]
       funext d
@@ -223,7 +220,14 @@ theorem exec_riView (v : Variant) (hv : v.initFirst = true) (s : St) (t : Nat) (
     · rfl
     · exact execSrv_riView s t rest a
   case postReg c =>
-    left; simp only [exec, hv, if_true]; rfl
+    left; simp only [exec, hv, if_true]; split <;> rfl
+  case cancelConts c r =>
+    left
+    simp only [exec]
+    unfold riView
+    simp only [setProg_cmd, updCmd_cmd, foldl_setCont2_cmd]
+    funext d
+    split <;> rfl
   all_goals
     left
     simp only [exec]
@@ -272,11 +276,15 @@ theorem sendInv_step (v : Variant) (hv : v.initFirst = true) (s : St) (t : Nat) 
   split
   · exact h
   · split
-    · exact sendInv_skipCaps s _ h
+    · split
+      · exact sendInv_skipCaps s _ h
+      · exact h
     · split
       · exact h
-      · rename_i i rest hs
-        exact sendInv_exec v hv s t i rest hs ho h
+      · split
+        · exact h
+        · rename_i i rest hs
+          exact sendInv_exec v hv s t i rest hs ho h
 
 theorem sendInv_run (v : Variant) (hv : v.initFirst = true) (sched : List Nat) (s : St) (ho : Once s) (h : SendInv s) :
     SendInv (run v s sched) ∧ Once (run v s sched) := by
